@@ -10,6 +10,8 @@ for patch in sorted(glob.glob(os.path.join(root, "C*", "*", "patch.diff"))):
     name = patch.split("/")[-2]
     if only and pid not in only and (pid + "/" + name) not in only:
         continue
+    if os.path.exists(os.path.join(os.path.dirname(patch), "patch_current.diff")):
+        patch = os.path.join(os.path.dirname(patch), "patch_current.diff")      # port of a patch the later fix: commits broke
     chk = subprocess.run(["git", "-C", "/repo", "apply", "--check", patch], capture_output=True, text=True)
     if chk.returncode != 0:
         rows.append((pid, name, "patch does not apply", "")); continue
